@@ -33,7 +33,7 @@ func init() { Register(c14{}) }
 func (c14) ID() string       { return "C14" }
 func (c14) New() interface{} { return &C14Case{} }
 func (c14) Rule() string {
-	return "each run: a nucleotide or protein alignment of 1-7 rows x 1-10 columns whose columns are drawn from small palettes (2-3 letters, so that ties for the most frequent character are the rule), with all-gap, all-N/X, gap+N and single-kind columns and mixed case in a quarter of the runs; ~45 statistics are evaluated under map-iteration seeds a, a again, b and c (Go's map order is behind the seam spliced by seamgen); site indices -1, L, L+1 are tried on every function that takes one. Distinct = distinct alignment content; non-trivial = at least 2 rows and at least one column with a tie for the most frequent admissible character."
+	return "each run: a nucleotide or protein alignment of 1-7 rows x 1-10 columns whose columns are drawn from small palettes (2-3 letters, so that ties for the most frequent character are the rule), with all-gap, all-N/X, gap+N and single-kind columns and mixed case in a quarter of the runs; ~45 statistics are evaluated under map-iteration seeds a, a again, b and c (Go's map order is behind the seam spliced by seamgen); site indices -1, L, L+1 are tried on every function that takes one; a decoy alignment of the same names and shape is evaluated before the first evaluation and between the first and the second; count profiles that do not cover the alignment must be refused. Distinct = distinct alignment content; non-trivial = at least 2 rows and at least one column with a tie for the most frequent admissible character."
 }
 
 func (c14) Gen(rs uint64, tier string, race bool) interface{} {
